@@ -25,6 +25,7 @@ from .model import AnalysisError, Class, Func, Module, Program, norm_key
 
 MAXPATH = 5
 ELEM = "[]"
+SHALLOW_OF = "<shallow-copy-of>"
 
 
 # ----------------------------------------------------------------------------- values
@@ -371,7 +372,11 @@ class _Interp:
                 elif not hv[1] and is_local(o):
                     pass
             else:
-                if o[0] == "U":
+                sh = st.heap.get((o, SHALLOW_OF)) if step != SHALLOW_OF else None
+                if sh is not None:
+                    # attribute of a shallow copy never written since: same object as in the source
+                    out = join(out, self.load_step(st, sh[0], step))
+                elif o[0] == "U":
                     out = join(out, UNKNOWN)
                 elif is_local(o):
                     # field of a local object never written here: opaque sub-object, still local
@@ -1231,6 +1236,11 @@ class _Interp:
             return base.with_(types=(), funcs=(), lits=()) if not base.is_bottom() else AV(ext=True)
         if kind == "fresh_shallow":
             ev = self.elements(st, pos[0]) if pos else BOTTOM
+            if dotted == "copy.copy" and pos:
+                r = self.fresh_container(st, e, ev, dotted)
+                for o in r.origins:
+                    st.heap[(o, SHALLOW_OF)] = (AV(origins=pos[0].origins), True)
+                return r.with_(types=pos[0].types)
             if dotted == "dict" and kw:
                 ev = join(ev, join_all(kw.values()))
             if kw_extra:
